@@ -15,7 +15,7 @@ pub const LOOKAHEAD: usize = 64;
 fn gen(t: &mut Tape, tier: Tier) -> Scenario {
     let mut sc = Scenario::new("c15");
     let long = t.below(10) == 0;
-    let b = if long { gen_long_symbol(t, 0) } else { gen_lzma(t, 0, 3000) };
+    let b = if long { gen_long(t, 0) } else { gen_lzma(t, 0, 3000) };
     let mut opts = OptSpec {
         allow_incomplete: true,
         ..Default::default()
